@@ -136,3 +136,98 @@ func TestC11ChurnWithoutEligibleBackend(t *testing.T) {
 		}
 	}
 }
+
+// "Once add returns the backend is listed ... once remove returns no backend of that name is listed":
+// the admin actor checks its own operations with its own listing right after they return, while
+// other goroutines list, pick and send requests as fast as they can (whatever those observers
+// make the balancer remember must not outlive the change).
+func TestC11ListedOnceReturned(t *testing.T) {
+	const name = "reconfig-listed-once-returned"
+	sub := lab.Sub(name, "real-thread stress: balancer with 2 fixed members under each of the 5 strategies; one admin goroutine repeats add(x) -> own GET /v1/backends must list x (and lb.ListBackends too) -> remove(x) -> own listing must not list x, "+
+		"while 2-6 observer goroutines call GET /v1/backends, lb.ListBackends, lb.NextBackend and send requests back to back; oracle: the statement's 'once add/remove returns' for the actor's own next listing; "+
+		"every round is non-trivial; distinct = strategy x observers; a no-progress watchdog (20 s) reports a wedge")
+	if lab.Replaying() {
+		t.Skip()
+	}
+	rounds := lab.Share(lab.Scale(60, 1200))
+	perRound := lab.Scale(400, 800)
+	var cur atomic.Value
+	cur.Store("")
+	wd := lab.StartWatchdog(t.Name(), name, lab.NoProgress, func() any { return cur.Load() })
+	defer func() { wd.Stop() }()
+	for r := 0; r < rounds; r++ {
+		wd.Stop()
+		wd = lab.StartWatchdog(t.Name(), name, lab.NoProgress, func() any { return cur.Load() })
+		k := r*lab.Shards() + lab.Shard()
+		strategy := lab.Strategies[k%len(lab.Strategies)]
+		observers := 2 + (k/5)%5
+		c := map[string]any{"strategy": strategy, "observers": observers}
+		cur.Store(fmt.Sprint(c))
+		s, _, err := newSys(strategy, 2)
+		if err != nil {
+			t.Fatalf("harness: %v", err)
+		}
+		var stop atomic.Bool
+		var wg sync.WaitGroup
+		for g := 0; g < observers; g++ {
+			wg.Add(1)
+			go func(g int) {
+				defer wg.Done()
+				for i := 0; !stop.Load(); i++ {
+					switch (i + g) % 4 {
+					case 0:
+						_, _ = s.list()
+					case 1:
+						_ = s.lb.ListBackends()
+					case 2:
+						_ = s.lb.NextBackend(lab.Request("GET", "/n", fmt.Sprintf("10.8.%d.%d:1000", g, i%250), nil))
+					default:
+						lab.Serve(s.lb, lab.Request("GET", "/t", fmt.Sprintf("10.8.%d.%d:1000", g, i%250), nil))
+					}
+				}
+			}(g)
+		}
+		listed := func(nm string) (api, direct bool, err error) {
+			l, e := s.list()
+			if e != nil {
+				return false, false, e
+			}
+			for _, i := range l {
+				api = api || i.Name == nm
+			}
+			for _, b := range s.lb.ListBackends() {
+				direct = direct || b.Name == nm
+			}
+			return api, direct, nil
+		}
+		viol := ""
+		for i := 0; i < perRound && viol == ""; i++ {
+			nm := fmt.Sprintf("x%d", i%3)
+			// a refusing address: a request that reaches it before the fake transport is installed gets 502 at once
+			if code, body := s.call("POST", "/v1/backends/add", map[string]any{"name": nm, "address": "http://127.0.0.1:1", "weight": 1}); code != 200 && code != 201 {
+				viol = fmt.Sprintf("add(%s) answered %d %s", nm, code, body)
+				break
+			}
+			if api, direct, e := listed(nm); e != nil || !api || !direct {
+				viol = fmt.Sprintf("add(%s) has returned, but the actor's own next listing does not contain it (GET /v1/backends: %v, ListBackends: %v, err %v); iteration %d", nm, api, direct, e, i)
+				break
+			}
+			if code, body := s.remove(nm); code != 200 {
+				viol = fmt.Sprintf("remove(%s) answered %d %s", nm, code, body)
+				break
+			}
+			if api, direct, e := listed(nm); e != nil || api || direct {
+				viol = fmt.Sprintf("remove(%s) has returned, but the actor's own next listing still contains it (GET /v1/backends: %v, ListBackends: %v, err %v); iteration %d", nm, api, direct, e, i)
+				break
+			}
+		}
+		stop.Store(true)
+		wg.Wait()
+		s.lb.Stop()
+		sub.Case(c, true, strategy)
+		if viol != "" {
+			lab.Violation(t, name, c, "%s", viol)
+			return
+		}
+	}
+}
